@@ -5,7 +5,7 @@
    then over the arguments of the call being judged in the reached state. *)
 From Coq Require Import List NArith ZArith Bool.
 From BLB Require Import Store.Bytes Store.BytesProofs Store.Model Store.Proofs Store.WF Store.Conflict Store.Mono
-     Store.Steps Store.Monotone Store.Readd Store.FaultModel Store.Faults Store.Crash Store.CrashProofs C09.Model C09.Proofs.
+     Store.Steps Store.Monotone Store.Readd Store.FaultModel Store.Faults Store.Crash Store.CrashProofs Store.CrashInv C09.Model C09.Proofs.
 Import ListNotations.
 
 (* [FULL] Read succeeds (NoError or EOF) iff the named version is the served copy's version and then returns exactly the stored bytes of the range, otherwise returns no bytes; Stat succeeds iff the version is current and then returns the stored size, otherwise 0; reads and stats never change the state; Write succeeds iff the version is current and then the served copy is the old content overwritten at the offset with the same version, otherwise the state is unchanged except that the named tract's mod stamp IS bumped, files and disk table untouched *)
@@ -243,3 +243,44 @@ Theorem crash_model_refines_sequential :
                    copy (vs (power_loss cs)) pd t = copy (vs cs) pd t).
 Proof. split; [exact x_step_nofault|exact power_loss_keeps_synced]. Qed.
 Print Assumptions crash_model_refines_sequential.
+
+(* [FULL] durable-version monotonicity as an invariant of the crash model. After every history of operations with arbitrary fault positions and arbitrary power losses the state satisfies cinv, that is the visible state is well formed, every file with unsynced updates exists and the dirty list has one entry per file, and the visible version of every copy is at least its durable version. From such a state, for every stored copy, no single transition other than a PullTract of that very tract lowers the durable version while the copy stays on stable storage, whatever fault is armed and including power loss, and hence along any later history of such transitions during which the copy stays on stable storage the durable version never decreases. A power loss makes the visible copy equal to the durable copy. GC and conflict loss remove the copy, so the premise that it stays on stable storage ends there, and PullTract of the tract re-installs it, which starts a fresh history *)
+Theorem durable_version_monotone :
+  forall m xs0,
+    let cs := xrun (cinit m) xs0 in
+    cinv cs /\
+    (forall pd t g, durable_copy cs pd t = Some g -> exists f, copy (vs cs) pd t = Some f /\ ver_le g f) /\
+    (forall x pd t g g', xop_ok_for t x -> durable_copy cs pd t = Some g ->
+                         durable_copy (xstep cs x) pd t = Some g' -> ver_le g g') /\
+    (forall xs pd t g g', Forall (xop_ok_for t) xs ->
+                          xstays (fun c => durable_copy c pd t <> None) cs xs ->
+                          durable_copy cs pd t = Some g -> durable_copy (xrun cs xs) pd t = Some g' ->
+                          ver_le g g') /\
+    (forall pd t, copy (vs (power_loss cs)) pd t = durable_copy cs pd t).
+Proof. exact durable_version_monotone_lemma. Qed.
+Print Assumptions durable_version_monotone.
+
+(* [FULL] an acknowledged bump survives any later history. After any history, a SetVersion of a served tract acknowledged with NoError, then any later history of operations with arbitrary faults and power losses that contains no PullTract of that tract and during which the copy stays on stable storage, leaves a durable copy whose version is at least the acknowledged one, and a power loss at the end leaves exactly that copy on the disk *)
+Theorem acked_bump_survives_later_history :
+  forall m xs0 f t v cond cs' f' rv pd fl xs g',
+    let cs := xrun (cinit m) xs0 in
+    open_existing (vs cs) t = Op_ok pd fl ->
+    x_set_version cs f t v cond = (cs', f', (E_OK, rv)) ->
+    Forall (xop_ok_for t) xs ->
+    xstays (fun c => durable_copy c pd t <> None) cs' xs ->
+    durable_copy (xrun cs' xs) pd t = Some g' ->
+    (exists c, f_ver g' = Some c /\ (v <= c)%Z) /\
+    copy (vs (power_loss (xrun cs' xs))) pd t = Some g'.
+Proof. exact acked_later_lemma. Qed.
+Print Assumptions acked_bump_survives_later_history.
+
+(* [FULL] the visible state under faulted operations. After every history of faulted operations and power losses the visible state is well formed, it is still well formed after any operation with any fault position, and the visible version of a stored copy that exists before and after an operation with any fault position does not decrease unless the operation is a PullTract. The two named events that lower a visible version are therefore a power loss, which takes back updates that were never acknowledged, and a PullTract whose look at the local copy meets an I/O error *)
+Theorem faulted_ops_keep_wf_and_versions :
+  forall m xs0 f o,
+    let cs := xrun (cinit m) xs0 in
+    wf (vs cs) /\ wf (vs (fst (x_step cs f o))) /\
+    (is_pull o = false ->
+     forall pd t fl fl', copy (vs cs) pd t = Some fl -> copy (vs (fst (x_step cs f o))) pd t = Some fl' ->
+                         ver_le fl fl').
+Proof. exact faulted_ops_lemma. Qed.
+Print Assumptions faulted_ops_keep_wf_and_versions.
